@@ -87,6 +87,13 @@ def gen_c16(tier, rng):
         for x in vals:
             for y in vals:
                 out.append(cmp_case(name, x, y))
+    # sets / maps whose members include unequal keys with colliding hashes: both are members, both are found
+    cols = collisions_c(rng, 40 if big else 12)
+    for i in range(0, len(cols), 4):
+        ms = [v for pair in cols[i:i + 4] for v in pair]
+        ps = [v for pair in cols[(i + 4) % len(cols):(i + 4) % len(cols) + 2] for v in pair]
+        out.append(case("hash", "set", "C", ";".join(m[1] for m in ms), ";".join(p[1] for p in ps),
+                        ";".join(m[0] for m in ms), ";".join(p[0] for p in ps)))
     # sets / maps: insert a grid, look every member up, probe non-members
     for name in ("A", "B", "C", "D", "E"):
         vals = list(values(name, SMALL))
